@@ -17,7 +17,7 @@ manifest = {
         "enable": "RUSTFLAGS=\"--cfg decaf377_verif\" (set by ./check for every harness build; a rustc cfg flag, not a cargo "
                   "feature, so feature unification can never switch it on)",
         "baseline_off_cmd": "cd /repo && cargo test --workspace --no-fail-fast --offline",
-        "source_commits": ["a6a4b16"],
+        "source_commits": ["a6a4b16", "5c0e8c9"],
         "add_only": True,
     },
     "engines": [
